@@ -300,7 +300,8 @@ def _fq(v):
     return F(str(v)) if isinstance(v, float) else F(v)
 
 
-BIG = 5000     # beyond this many (integer-weight) respondents a vector is not expanded one by one
+BIG = 400      # beyond this many (integer-weight) respondents a vector is not expanded one by one (the Lean spec's variance is
+               # quadratic in the number of listed respondents); larger vectors are judged by `scale_median_int` + the python oracle
 
 
 def _too_big(resps):
@@ -353,6 +354,33 @@ def _spec_op(values, resps, int_counts):
             "resps": [[U.fs(w), k] for w, k in rs]}
 
 
+def _int_op(values, resps):
+    """respondent-level median of integer-weighted records of ANY size (Lean `ScaleSpec.medianInt`, proved equal to the
+    median over the enumerated individual respondents: C14.median_int_spec)"""
+    return {"op": "scale_median_int", "vals": [None if v is None else U.fs(_fq(v)) for v in values],
+            "resps": [[U.fs(w), k] for w, k in resps]}
+
+
+def _wants_int(case, resps, intc):
+    return intc and (_too_big(resps) or case.get("family") == "largecounts")
+
+
+def unit_expanded_response(resp):
+    """the cube response of the UNWEIGHTED data set holding every integer-weighted record `w` times: the counts are the
+    weighted counts, there is no weight (what a count table of millions of plain respondents looks like)"""
+    resp = copy.deepcopy(resp)
+    res = resp["result"]
+    data = res["measures"]["count"]["data"]
+    if any(int(x) != x for x in data):
+        raise common.HarnessFault("unit_expanded_response needs integer counts")
+    data = [int(x) for x in data]
+    res["measures"]["count"]["data"] = data
+    res["measures"]["count"]["metadata"]["type"]["integer"] = True
+    res["counts"] = list(data)
+    res["n"] = sum(data)
+    return resp
+
+
 def _vals_json(values):
     return [None if v is None else U.fs(_fq(v)) for v in values]
 
@@ -372,8 +400,12 @@ def _plan(case):
         ax = axes[0]
         counts = [sum((w for w, k in _strand_resps(ax, survey) if k == e), F(0)) for e in range(ax.n)]
         plan["counts"] = counts
-        add("strand", {"op": "scale_strand", "values": _vals_json(ax.values), "counts": [U.fs(x) for x in counts]})
-        add("strand_spec", _spec_op(ax.values, _strand_resps(ax, survey), intc))
+        sresps = _strand_resps(ax, survey)
+        if not (intc and _too_big(sresps)):     # the strand model expands respondent by respondent (as np.repeat does)
+            add("strand", {"op": "scale_strand", "values": _vals_json(ax.values), "counts": [U.fs(x) for x in counts]})
+        add("strand_spec", _spec_op(ax.values, sresps, intc))
+        if _wants_int(case, sresps, intc):
+            add("strand_int", _int_op(ax.values, sresps))
         return plan
     counts, rb, cb = U.tabulate2(axes, survey, lambda w: w)
     plan["counts"], plan["rb"], plan["cb"] = counts, rb, cb
@@ -390,13 +422,19 @@ def _plan(case):
                      "bases": U.fmat(bm), "subs": [{"add": a, "sub": s} for _, a, s in subs], "order": order})
         # respondent-level spec of every base vector and every additive subtotal vector
         for e in range(vax.n):
-            add("%s_spec_%d" % (orient, e), _spec_op(oax.values, _vector_resps(axes, survey, orient, [e]), intc))
+            vr = _vector_resps(axes, survey, orient, [e])
+            add("%s_spec_%d" % (orient, e), _spec_op(oax.values, vr, intc))
+            if _wants_int(case, vr, intc):
+                add("%s_int_%d" % (orient, e), _int_op(oax.values, vr))
         for k, (_, a, s) in enumerate(subs):
             if not s and vax.role in ("cat", "cacat"):
-                add("%s_spec_%d" % (orient, k - len(subs)),
-                    _spec_op(oax.values, _vector_resps(axes, survey, orient, a), intc))
+                vr = _vector_resps(axes, survey, orient, a)
+                add("%s_spec_%d" % (orient, k - len(subs)), _spec_op(oax.values, vr, intc))
+                if _wants_int(case, vr, intc):
+                    add("%s_int_%d" % (orient, k - len(subs)), _int_op(oax.values, vr))
         # overall margin: all respondents of the table (valid on both dims), by opposing category
-        if axes[0].role == "cat" and axes[1].role == "cat":
+        # (`skip_margins`: tables beyond ~10^7 respondents, whose margins np.repeat cannot materialise)
+        if axes[0].role == "cat" and axes[1].role == "cat" and not case.get("skip_margins"):
             hidden = set()
             otr = tr.get("columns_dimension" if orient == "rows" else "rows_dimension") or {}
             for k_, v_ in (otr.get("elements") or {}).items():
@@ -421,6 +459,8 @@ def _plan(case):
             if not _too_big(allresp):     # the model expands respondent by respondent: not for 10^5-range counts
                 add(orient + "_margin", {"op": "scale_margin", "values": _vals_json(vals), "margin": [U.fs(x) for x in mar]})
             add(orient + "_margin_spec", _spec_op(oax.values, allresp, intc))
+            if _wants_int(case, allresp, intc):
+                add(orient + "_margin_int", _int_op(oax.values, allresp))
     return plan
 
 
@@ -451,6 +491,16 @@ def _cmp(findings, kind, locus, what, impl, expected):
     return ok
 
 
+def _int_median(findings, lo, locus, what, impl, orc):
+    """judge a median against Lean's `medianInt` (integer-weighted records of any size); the two oracles must agree"""
+    if not lo["nat_weights"]:
+        raise common.HarnessFault("scale_median_int on non-natural weights")
+    exp = common.model_to_float(lo["median"])
+    if not common.num_close(exp, orc["median"]):
+        raise common.HarnessFault("Lean medianInt %r != python oracle %r" % (exp, orc["median"]))
+    _cmp(findings, "spec", locus, "%s vs Lean spec (integer-weighted records)" % what, impl, exp)
+
+
 def _isnan(x):
     return isinstance(x, float) and math.isnan(x)
 
@@ -464,6 +514,9 @@ def evaluate(case, louts, ctx):
     findings = []
     weighted = case["wmode"] != "unit"
     resp = gen.cube_response(vars_, survey, weighted)
+    if case.get("present") == "expanded":
+        resp = unit_expanded_response(resp)
+    ctx.count("present:%s" % case.get("present", "survey"))
     tr = case.get("transforms") or {}
     cube = Cube(resp, transforms=copy.deepcopy(tr))   # the library rewrites ids inside the dict it is given
     part = common.call_impl(lambda: len(cube.partitions))
@@ -483,7 +536,7 @@ def evaluate(case, louts, ctx):
         if [F(x) for x in sp["counts"]] != plan["counts"] and not intc:
             raise common.HarnessFault("Lean countsOf != python counts (strand)")
         any_vals = any(v is not None for v in ax.values)
-        m = L("strand")
+        m = L("strand") if "strand" in plan["idx"] else None
         impl = {"mean": common.call_impl(lambda: part.scale_mean),
                 "median": common.call_impl(lambda: part.scale_median),
                 "stddev": common.call_impl(lambda: part.scale_std_dev),
@@ -513,11 +566,15 @@ def evaluate(case, louts, ctx):
                     # the strand twin of F6: averaged with the next LISTED value although nobody chose it
                     mloc = "strand.scale_median.exact-half-next-value-zero-count"
                 _cmp(findings, "spec", mloc, "vs python oracle", impl["median"], orc["median"])
-                _cmp(findings, "spec", "strand.scale_median", "vs Lean spec", impl["median"],
-                     common.model_to_float(sp["median"]))
+                if not _too_big(resps):
+                    _cmp(findings, "spec", "strand.scale_median", "vs Lean spec", impl["median"],
+                         common.model_to_float(sp["median"]))
+                if "strand_int" in plan["idx"]:
+                    _int_median(findings, L("strand_int"), mloc, "scale_median", impl["median"], orc)
         # --- model level
         for k in ("mean", "median", "stddev", "stderr"):
-            _cmp(findings, "model", "seam.strand.%s" % k, "vs Lean model", impl[k], U.sout_float(m[k]))
+            if m is not None:
+                _cmp(findings, "model", "seam.strand.%s" % k, "vs Lean model", impl[k], U.sout_float(m[k]))
         vs = {ax.values[k] for w, k in resps if w > 0 and ax.values[k] is not None}
         if len(vs) >= 2:
             key = ("strand", tuple(plan["counts"]), tuple(ax.values))
@@ -605,6 +662,9 @@ def evaluate(case, louts, ctx):
                 if not _too_big(resps):
                     _cmp(findings, "spec", mloc, "%s[%d] vs Lean spec" % (names["median"], pos), g["median"],
                          common.model_to_float(sp["median"]))
+                iname = "%s_int_%d" % (orient, sidx)
+                if iname in plan["idx"]:
+                    _int_median(findings, L(iname), mloc, "%s[%d]" % (names["median"], pos), g["median"], orc)
             vs = {oax.values[k] for w, k in resps if w > 0 and oax.values[k] is not None}
             if len(vs) >= 2:
                 nontrivial = True
@@ -646,6 +706,9 @@ def evaluate(case, louts, ctx):
                         if not _too_big(allresp):
                             _cmp(findings, "spec", "slice.%s_scale_median_margin" % orient, "vs Lean spec", impl_med,
                                  common.model_to_float(sp["median"]))
+                        if (orient + "_margin_int") in plan["idx"]:
+                            _int_median(findings, L(orient + "_margin_int"), "slice.%s_scale_median_margin" % orient,
+                                        "%s_scale_median_margin" % orient, impl_med, orc)
     if nontrivial:
         key = ("slice", axes[0].role, axes[1].role, tuple(tuple(r) for r in plan["counts"]),
                tuple(axes[0].values), tuple(axes[1].values))
